@@ -84,6 +84,11 @@ Qed.
 Lemma no_break_app a b : no_break (a ++ b) = no_break a && no_break b.
 Proof. apply forallb_app. Qed.
 
+Lemma simple_no_cnt s : simple_s s = true -> no_cnt_chain_s s = true.
+Proof. destruct s; cbn; auto; discriminate. Qed.
+Lemma no_cnt_app a b : no_cnt_chain (a ++ b) = no_cnt_chain a && no_cnt_chain b.
+Proof. apply forallb_app. Qed.
+
 Section LoopPass.
   Variable N : binop -> option binop.
   Variable C : bool.
@@ -101,22 +106,27 @@ Section LoopPass.
     inv_lenv : lenv st0 (map snd out) = lenv st0 pre;
     inv_sem : sem N C E None st0 (map snd out) = sem N C E None st0 pre;
     inv_nb : no_break (map snd out) = true;
+    inv_nc : no_cnt_chain (map snd out) = true;
     inv_lab : forall j s l, In (j, s) out -> nth_error f j = Some (SLabel l) -> s = SLabel l }.
 
   Lemma inv_push pre out s t :
     inv pre out -> f = pre ++ s :: t -> inv (pre ++ [s]) (out ++ [(length pre, s)]).
   Proof.
-    intros [Ha Hl Hs Hn Hb] Hf.
+    intros [Ha Hl Hs Hn Hc Hb] Hf.
     assert (Hnth : nth_error f (length pre) = Some s).
     { rewrite Hf, nth_error_app2, Nat.sub_diag by lia. reflexivity. }
     assert (Hsimple : no_break_s s = true).
     { apply simple_no_break. unfold is_flat in Hflat. rewrite forallb_forall in Hflat. apply Hflat.
+      rewrite Hf. apply in_or_app. right. now left. }
+    assert (Hsimple' : no_cnt_chain_s s = true).
+    { apply simple_no_cnt. unfold is_flat in Hflat. rewrite forallb_forall in Hflat. apply Hflat.
       rewrite Hf. apply in_or_app. right. now left. }
     split.
     - rewrite map_app, !adv_app, Ha. reflexivity.
     - rewrite map_app, !lenv_app, Hl, Ha. reflexivity.
     - rewrite map_app, !sem_app, Hs, Ha. reflexivity.
     - rewrite map_app, no_break_app, Hn. cbn. now rewrite Hsimple.
+    - rewrite map_app, no_cnt_app, Hc. cbn. now rewrite Hsimple'.
     - intros j s' l Hin Hj. apply in_app_or in Hin as [Hin|[Heq|[]]]; [eauto|].
       inversion Heq; subst j s'. rewrite Hnth in Hj. now inversion Hj.
   Qed.
@@ -166,6 +176,10 @@ Section LoopPass.
     apply andb_true_iff in Hnb1 as [HnbK HnbR]. change (SLabel l :: map snd R' ++ [SJump None k l None])
       with ([SLabel l] ++ map snd R' ++ [SJump None k l None]) in HnbR.
     rewrite !no_break_app in HnbR. apply andb_true_iff in HnbR as [_ HnbR]. apply andb_true_iff in HnbR as [HnbB _].
+    pose proof (inv_nc _ _ Hinv1) as Hnc1. rewrite Hmap1, no_cnt_app in Hnc1.
+    apply andb_true_iff in Hnc1 as [HncK HncR]. change (SLabel l :: map snd R' ++ [SJump None k l None])
+      with ([SLabel l] ++ map snd R' ++ [SJump None k l None]) in HncR.
+    rewrite !no_cnt_app in HncR. apply andb_true_iff in HncR as [_ HncR]. apply andb_true_iff in HncR as [HncB _].
     destruct (loop_step_equiv N C E st0 (map snd K') l (map snd R') k None HE HnbB) as (Ea & El & Es).
     assert (Hmap2 : map snd ((K' ++ [(dest, SLabel l)]) ++ [(i, SLoop k (SNo :: map snd R' ++ [SNo]))])
                     = map snd K' ++ [SLabel l; SLoop k (SNo :: map snd R' ++ [SNo])]).
@@ -176,6 +190,8 @@ Section LoopPass.
     - rewrite Hmap2, Es, <- Hmap1. apply (inv_sem _ _ Hinv1).
     - rewrite Hmap2, no_break_app, HnbK. cbn. rewrite andb_true_r.
       unfold no_break in HnbB. rewrite forallb_app, HnbB. reflexivity.
+    - rewrite Hmap2, no_cnt_app, HncK. cbn. rewrite andb_true_r.
+      unfold no_cnt_chain in HncB. rewrite forallb_app, HncB. reflexivity.
     - intros j s' l' Hin Hj. apply in_app_or in Hin as [Hin|[Heq|[]]].
       + eapply (inv_lab _ _ Hinv1); eauto. rewrite Hsplit. apply in_app_or in Hin as [Hin|[Heq|[]]].
         * apply in_or_app. now left.
@@ -205,7 +221,14 @@ Section LoopPass.
     no_break (loop_pass G f) = true.
   Proof.
     assert (H0 : inv [] []) by (split; try reflexivity; intros j s l []).
-    pose proof (loop_go_inv f [] [] eq_refl H0) as [Ha Hl Hs Hn _].
+    pose proof (loop_go_inv f [] [] eq_refl H0) as [Ha Hl Hs Hn _ _].
+    unfold loop_pass. cbn [length] in *. auto.
+  Qed.
+
+  Theorem loop_pass_no_cnt : no_cnt_chain (loop_pass G f) = true.
+  Proof.
+    assert (H0 : inv [] []) by (split; try reflexivity; intros j s l []).
+    pose proof (loop_go_inv f [] [] eq_refl H0) as [_ _ _ _ Hc _].
     unfold loop_pass. cbn [length] in *. auto.
   Qed.
 End LoopPass.
